@@ -15,6 +15,9 @@ use crate::schedx::{CaseInfo, Judgement};
 
 #[derive(Clone, Debug)]
 pub struct Case {
+    /// writer 0 first runs a commit whose final sync fails (EIO after the header reached the file:
+    /// the error is reported, the state is visible, the next writer has to rebuild the free list)
+    pub fsync_fault: bool,
     /// writer 0 first runs a commit whose file-growing `mmap` fails (ENOMEM), then its normal one
     pub mmap_fault: bool,
     pub writers: usize,
@@ -28,20 +31,22 @@ pub struct Case {
 pub fn cases(tier: Tier) -> Vec<Case> {
     let q = tier == Tier::Quick;
     let mut v = vec![
-        Case { mmap_fault: false, writers: 1, readers: 1, liveness: true, num_pages: 4, bound: if q { 4 } else { 8 } },
-        Case { mmap_fault: false, writers: 1, readers: 1, liveness: true, num_pages: 64, bound: if q { 4 } else { 8 } },
-        Case { mmap_fault: false, writers: 2, readers: 1, liveness: false, num_pages: 4, bound: if q { 2 } else { 3 } },
-        Case { mmap_fault: false, writers: 3, readers: 0, liveness: false, num_pages: 4, bound: if q { 1 } else { 2 } },
-        Case { mmap_fault: false, writers: 2, readers: 0, liveness: false, num_pages: 64, bound: if q { 3 } else { 4 } },
+        Case { fsync_fault: false, mmap_fault: false, writers: 1, readers: 1, liveness: true, num_pages: 4, bound: if q { 4 } else { 8 } },
+        Case { fsync_fault: false, mmap_fault: false, writers: 1, readers: 1, liveness: true, num_pages: 64, bound: if q { 4 } else { 8 } },
+        Case { fsync_fault: false, mmap_fault: false, writers: 2, readers: 1, liveness: false, num_pages: 4, bound: if q { 2 } else { 3 } },
+        Case { fsync_fault: false, mmap_fault: false, writers: 3, readers: 0, liveness: false, num_pages: 4, bound: if q { 1 } else { 2 } },
+        Case { fsync_fault: false, mmap_fault: false, writers: 2, readers: 0, liveness: false, num_pages: 64, bound: if q { 3 } else { 4 } },
     ];
-    v.push(Case { mmap_fault: true, writers: 1, readers: 2, liveness: false, num_pages: 4, bound: if q { 2 } else { 3 } });
-    v.push(Case { mmap_fault: true, writers: 2, readers: 1, liveness: false, num_pages: 4, bound: if q { 1 } else { 2 } });
+    v.push(Case { fsync_fault: false, mmap_fault: true, writers: 1, readers: 2, liveness: false, num_pages: 4, bound: if q { 2 } else { 3 } });
+    v.push(Case { fsync_fault: false, mmap_fault: true, writers: 2, readers: 1, liveness: false, num_pages: 4, bound: if q { 1 } else { 2 } });
+    v.push(Case { fsync_fault: true, mmap_fault: false, writers: 1, readers: 2, liveness: false, num_pages: 64, bound: if q { 2 } else { 3 } });
+    v.push(Case { fsync_fault: true, mmap_fault: false, writers: 2, readers: 1, liveness: false, num_pages: 64, bound: if q { 1 } else { 2 } });
     if !q {
-        v.push(Case { mmap_fault: false, writers: 3, readers: 1, liveness: false, num_pages: 4, bound: 2 });
-        v.push(Case { mmap_fault: false, writers: 2, readers: 2, liveness: false, num_pages: 4, bound: 2 });
-        v.push(Case { mmap_fault: false, writers: 3, readers: 2, liveness: false, num_pages: 4, bound: 1 });
+        v.push(Case { fsync_fault: false, mmap_fault: false, writers: 3, readers: 1, liveness: false, num_pages: 4, bound: 2 });
+        v.push(Case { fsync_fault: false, mmap_fault: false, writers: 2, readers: 2, liveness: false, num_pages: 4, bound: 2 });
+        v.push(Case { fsync_fault: false, mmap_fault: false, writers: 3, readers: 2, liveness: false, num_pages: 4, bound: 1 });
     } else {
-        v.push(Case { mmap_fault: false, writers: 2, readers: 2, liveness: false, num_pages: 4, bound: 1 });
+        v.push(Case { fsync_fault: false, mmap_fault: false, writers: 2, readers: 2, liveness: false, num_pages: 4, bound: 1 });
     }
     v
 }
@@ -50,7 +55,7 @@ pub fn case_infos(tier: Tier) -> Vec<CaseInfo> {
     cases(tier)
         .iter()
         .map(|c| CaseInfo {
-            label: format!("{}w{}r{}{}-pages{}-c{}", c.writers, c.readers, if c.liveness { "-liveness" } else { "" }, if c.mmap_fault { "-mmapfault" } else { "" }, c.num_pages, c.bound),
+            label: format!("{}w{}r{}{}-pages{}-c{}", c.writers, c.readers, if c.liveness { "-liveness" } else { "" }, if c.mmap_fault { "-mmapfault" } else if c.fsync_fault { "-finalsyncfault" } else { "" }, c.num_pages, c.bound),
             describe: json!({"writers": c.writers, "readers": c.readers, "writer_body": if c.liveness { "begin; put; await(reader finished); commit" } else { "begin; v = get(n); yield; put(n, v+1); yield; commit" }, "reader_body": if c.liveness { "begin; dump; drop; signal" } else { "begin; dump; yield; dump; drop" }, "initial_pages": c.num_pages, "preemption_bound": c.bound}),
         })
         .collect()
@@ -120,8 +125,9 @@ pub fn run_one(case: &Case, path: &str, prefix: &[u8], policy: RwPolicy) -> (Exe
         let obs = obs.clone();
         let liveness = case.liveness;
         let mmap_fault = case.mmap_fault && w == 0;
+        let fsync_fault = case.fsync_fault && w == 0;
         bodies.push(Box::new(move |ctx: &Ctx| {
-            if mmap_fault {
+            if mmap_fault || fsync_fault {
                 // a commit that has to grow the file and whose mmap fails: it must report the error,
                 // and the handle must stay usable (the next commit maps the grown file again)
                 let r = real::guarded(|| -> Result<(), String> {
@@ -134,7 +140,7 @@ pub fn run_one(case: &Case, path: &str, prefix: &[u8], policy: RwPolicy) -> (Exe
                         p.calls = 0;
                         p.call_kinds.clear();
                         p.fault_fired = false;
-                        p.fault = Some(crate::iosim::Fault::nth(crate::iosim::Kind::Mmap, 0, libc::ENOMEM));
+                        p.fault = Some(if fsync_fault { crate::iosim::Fault::nth(crate::iosim::Kind::Fsync, 1, libc::EIO) } else { crate::iosim::Fault::nth(crate::iosim::Kind::Mmap, 0, libc::ENOMEM) });
                     });
                     let res = tx.commit();
                     let fired = crate::iosim::with_plan(|p| {
@@ -148,7 +154,7 @@ pub fn run_one(case: &Case, path: &str, prefix: &[u8], policy: RwPolicy) -> (Exe
                         Err(e) => Err(format!("commit failed although no fault was injected: {:?}", e)),
                         // another writer may have grown the file already: then no mmap is needed
                         Ok(()) if !fired => Ok(()),
-                        Ok(()) => Err("the commit whose mmap failed returned Ok".to_string()),
+                        Ok(()) => Err("the commit whose mmap / final sync failed returned Ok".to_string()),
                     }
                 });
                 match r {
